@@ -602,7 +602,7 @@ func (w *qWorld) onMessage(co *consumer, f Frame) {
 	if t.Paused && t.PauseStep < p.SendStep && p.TopicPausedAtSend && prev == nil && p.lifetime == w.lifetime {
 		w.violate("C03", "paused-topic-handed-message", "m%06d published while topic %s was paused (since step %d) reached channel %s", p.N, t.Name, t.PauseStep, cm.Key)
 	}
-	if cm.VoidStep != step && co.SubStep <= step {
+	if w.enforce["C03"] && cm.VoidStep != step && co.SubStep <= step {
 		R := co.Rdy
 		if co.rdyStepMax > R {
 			R = co.rdyStepMax
